@@ -427,7 +427,7 @@ func (m *Mux) serveHTTP(w http.ResponseWriter, r *http.Request) error {
 				return err
 			}
 		} else {
-			if _, err := conn.Write(ws.CompiledClose); err != nil {
+			if _, err := conn.Write(ws.CompiledCloseNormalClosure); err != nil {
 				return err
 			}
 		}
